@@ -136,3 +136,39 @@ func VerifLpmKeyBytes(p netip.Prefix) []byte {
 }
 
 func VerifCanonicalizePrefixes(p []netip.Prefix) []netip.Prefix { return canonicalizePrefixes(p) }
+
+// ---------------------------------------------------------------------------------------------------
+// C02 accessors (additive): the LPM ring of the kernel-side build and the per-name domain bitmap.
+
+// VerifLpmRingSet / VerifLpmRingGet write / read the process-wide ring cursor (globalNextLpmIndex).
+// The cursor is process state: callers serialise reserve+rewrite themselves.
+func VerifLpmRingSet(v uint32) { globalNextLpmIndex.Store(v) }
+func VerifLpmRingGet() uint32  { return globalNextLpmIndex.Load() }
+
+// VerifReserveLpmRingSlots is the production reserveLpmRingSlots (what buildRoutingKernspace calls once per load).
+func VerifReserveLpmRingSlots(count uint32) (uint32, error) { return reserveLpmRingSlots(count) }
+
+// LpmCount is the number of LPM sets of the program (len(simulatedLpmTries) at build time).
+func (v *VerifRouting) LpmCount() uint32 { return uint32(len(v.lpmSets)) }
+
+// KernRuleBytesAtRing returns the rule array exactly as buildRoutingKernspace writes it to routing_map for a load
+// whose reserveLpmRingSlots call returned allocStartIdx: the production rewriteKernRulesWithRingLpmIndex applied to
+// the builder's rules, as raw bytes.
+func (v *VerifRouting) KernRuleBytesAtRing(allocStartIdx uint32) ([][]byte, error) {
+	kern, err := rewriteKernRulesWithRingLpmIndex(v.kernRules, allocStartIdx, uint32(len(v.lpmSets)))
+	if err != nil {
+		return nil, err
+	}
+	out := make([][]byte, len(kern))
+	for i := range kern {
+		r := kern[i]
+		out[i] = append([]byte(nil), unsafe.Slice((*byte)(unsafe.Pointer(&r)), unsafe.Sizeof(r))...)
+	}
+	return out, nil
+}
+
+// DomainBitmap is what the control plane stores in a DNS cache entry for a name (dnsControllerOption.NewCache):
+// routingMatcher.domainMatcher.MatchDomainBitmap(name).
+func (v *VerifRouting) DomainBitmap(name string) []uint32 {
+	return v.Matcher.domainMatcher.MatchDomainBitmap(name)
+}
